@@ -61,7 +61,9 @@ impl<SlotType: Copy+Debug, const BUFFER_SIZE: usize, const METRICS: bool, const 
                     }
                     return false;
                 }
+                #[cfg(feature = "verif")] crate::verif::yield_point();
                 mutable_self.buffer[self.head as usize] = element;
+                #[cfg(feature = "verif")] crate::verif::yield_point();
                 mutable_self.head += 1;
                 self.flag.store(false, Ordering::Release);
                 if METRICS {
@@ -75,6 +77,7 @@ impl<SlotType: Copy+Debug, const BUFFER_SIZE: usize, const METRICS: bool, const 
             if METRICS {
                 self.push_collisions.fetch_add(1, Ordering::Relaxed);
             }
+            #[cfg(feature = "verif")] crate::verif::spin_hint();
             std::hint::spin_loop();
         }
     }
@@ -93,7 +96,9 @@ impl<SlotType: Copy+Debug, const BUFFER_SIZE: usize, const METRICS: bool, const 
                     }
                     return None;
                 }
+                #[cfg(feature = "verif")] crate::verif::yield_point();
                 mutable_self.head -= 1;
+                #[cfg(feature = "verif")] crate::verif::yield_point();
                 let element = self.buffer[self.head as usize];
                 self.flag.store(false, Ordering::Release);
                 if METRICS {
@@ -107,6 +112,7 @@ impl<SlotType: Copy+Debug, const BUFFER_SIZE: usize, const METRICS: bool, const 
             if METRICS {
                 self.pop_collisions.fetch_add(1, Ordering::Relaxed);
             }
+            #[cfg(feature = "verif")] crate::verif::spin_hint();
             std::hint::spin_loop();
         }
     }
